@@ -5,7 +5,8 @@ import corelib
 SPEC = dict(
     prop='C01',
     corr=[('check-cases', 4, 16, ['-n', '40', '-na', '40', '-profile', 'pure'], ('_dc', '_acc')),
-          ('check-cases', 2, 8, ['-n', '40', '-na', '0', '-profile', 'all'], ('_dc', '_acc'))],
+          ('check-cases', 2, 8, ['-n', '40', '-na', '0', '-profile', 'all'], ('_dc', '_acc')),
+          ('check-cases', 2, 6, ['-n', '2', '-na', '0', '-nf', '40', '-profile', 'all'], ('_dcf',))],
     oracles=[('check-oracle',
               [['-n', '150', '-seed', '{seed}', '-profile', 'pure', '-shrinkus', us] for us in ('50', '100', '150', '200', '300', '500', '800')] +
               [['-n', '100', '-seed', '{seed}', '-profile', 'pure', '-shrinkms', ms] for ms in ('3', '100')] +
